@@ -11,6 +11,10 @@ import (
 var (
 	ErrVariableInFact = errors.New("parser: a fact cannot contain any variables")
 	ErrVariableInSet  = errors.New("parser: a set cannot contain any variables")
+	// ErrInvalidExpressionTerm is returned when an expression contains a term that
+	// cannot be converted: an unbound parameter, a malformed date or bytes
+	// literal, or a variable inside a set.
+	ErrInvalidExpressionTerm = errors.New("parser: invalid term in expression: unbound parameter, malformed literal or variable in a set")
 )
 
 var BiscuitLexerRules = []lexer.SimpleRule{
